@@ -568,13 +568,20 @@ func c20Check(sc *Scenario, acc *Acc) (*c20Fail, int) {
 			acc.Evals++
 			acc.Steps += o.Steps
 		}
-		if o.Kind == "panic" && op.Call != nil && callPanics(*op.Call) && strings.Contains(o.Err, PanicMsg) {
-			// the user's own function panicked, as asked; the panic reaches the caller, who recovers.
-			// It must have been the right function, if one is registered and no built-in shadows it.
+		if op.Call != nil && callPanics(*op.Call) && len(w.Rec.Calls) > ncalls {
+			// the user's own function was invoked and panicked, as asked. Whether that panic reaches the
+			// caller (textwire today; the caller recovers, as net/http does) or is turned into an error
+			// of the render is not the property's business. It must have been the right function,
+			// invoked once, and nothing may be different afterwards.
+			if o.Kind == "abort" || (o.Kind == "panic" && !strings.Contains(o.Err, PanicMsg)) {
+				return &c20Fail{"op-" + o.Kind, "an operation of the history panics or hangs", "", o.Short()}, i
+			}
 			if fn, registered := model[op.Call.Recv+"/"+op.Call.Name]; registered {
 				if nc := w.Rec.Calls[ncalls:]; len(nc) != 1 || nc[0].Fn != fn {
 					return &c20Fail{"wrong-function", "the call reaches another function than the first one registered for (type, name)", fmt.Sprint("fn", fn), fmt.Sprint(len(nc), " invocation(s)")}, i
 				}
+			} else {
+				return &c20Fail{"wrong-function", "an unregistered (type, name) invoked some function", "no invocation", fmt.Sprint(len(w.Rec.Calls) - ncalls)}, i
 			}
 			if acc != nil {
 				acc.Fault("custom-function-panics-caller-recovers", 1)
